@@ -217,35 +217,35 @@ func fmtErrorLocationBodyLine(isNativeModule bool, moduleName string, lineNum in
 //	如果代码不为空：
 //	   ^
 func fmtErrorSourceLineWithParser(p *syntax.Parser, cursorIdx int, withCursorMark bool) string {
-	startIdx := cursorIdx
+	source := p.GetSource()
+	// the cursor of an error always lies inside the text or right after its last character
+	if cursorIdx < 0 {
+		cursorIdx = 0
+	}
+	if cursorIdx > len(source) {
+		cursorIdx = len(source)
+	}
+	// the line on which the cursor is located starts where the lexer has recorded it
+	// (a cursor on a line break belongs to the line which that break terminates)
+	startIdx := 0
+	if lineInfo := p.GetLineInfo(p.FindLineIdx(cursorIdx, 0)); lineInfo != nil && lineInfo.StartIdx <= cursorIdx {
+		startIdx = lineInfo.StartIdx
+	}
+	// skip indent chars
+	for startIdx < cursorIdx && (source[startIdx] == syntax.RuneSP || source[startIdx] == syntax.RuneTAB) {
+		startIdx += 1
+	}
+	// find next until meeting first CR/LF (or the end of text)
 	endIdx := startIdx
-	// append EOF to source to avoid index exceed exception
-	sourceT := append(p.GetSource(), 0)
-	for sourceT[startIdx] == syntax.RuneCR || sourceT[startIdx] == syntax.RuneLF {
-		startIdx -= 1
-	}
-	// find prev until meeting first CR/LF
-	for startIdx > 0 {
-		if sourceT[startIdx] == syntax.RuneCR || sourceT[startIdx] == syntax.RuneLF {
-			startIdx += 1
-			// skip indent chars
-			for sourceT[startIdx] == syntax.RuneSP || sourceT[startIdx] == syntax.RuneTAB {
-				startIdx += 1
-			}
-			break
-		}
-		startIdx -= 1
-	}
-	// find next until meeting first CR/LF
-	for endIdx < len(sourceT) {
-		if sourceT[endIdx] == syntax.RuneCR || sourceT[endIdx] == syntax.RuneLF {
+	for endIdx < len(source) {
+		if source[endIdx] == syntax.RuneCR || source[endIdx] == syntax.RuneLF {
 			break
 		}
 		endIdx += 1
 	}
 
 	// get relative cursor offset (notice one Chinese char counts for 2 unit offsets)
-	lineText := string(sourceT[startIdx:endIdx])
+	lineText := string(source[startIdx:endIdx])
 	fmtLine := fmt.Sprintf("    %s", lineText)
 	if withCursorMark {
 		cursorText := fmt.Sprintf("\n    %s^", strings.Repeat(" ", calcCursorOffset(lineText, cursorIdx-startIdx)))
@@ -278,8 +278,12 @@ func fmtErrorMessageLine(code int, errName string, errMessage string) string {
 }
 
 func calcCursorOffset(text string, col int) int {
+	runes := []rune(text)
 	if col < 0 {
-		return col
+		col = 0
+	}
+	if col > len(runes) {
+		col = len(runes)
 	}
 	widthBorders := []int32{
 		126, 159, 687, 710, 711, 727, 733, 879, 1154, 1161,
@@ -308,7 +312,7 @@ func calcCursorOffset(text string, col int) int {
 		}
 		return 1
 	}
-	for _, t := range []rune(text)[:col] {
+	for _, t := range runes[:col] {
 		offsets = offsets + getOffset(t)
 	}
 
